@@ -332,7 +332,13 @@ func (w *world) newKey(mat string, withReq bool, req uint32) key.Key {
 			if withReq {
 				v = []aesgcm.Variant{aesgcm.VariantTink, aesgcm.VariantCrunchy}[w.r.Intn(2)]
 			}
-			p, err := aesgcm.NewParameters(aesgcm.ParametersOpts{KeySizeInBytes: 16, IVSizeInBytes: 12, TagSizeInBytes: 16, Variant: v})
+			// one key in four has a 16-byte IV: the proto format cannot represent it (C12 known finding: lossy round
+			// trip), and a serializer that REFUSES such keys once made KeysetInfo()/String()/Handle() panic
+			iv := 12
+			if w.r.Intn(4) == 0 {
+				iv = 16
+			}
+			p, err := aesgcm.NewParameters(aesgcm.ParametersOpts{KeySizeInBytes: 16, IVSizeInBytes: iv, TagSizeInBytes: 16, Variant: v})
 			if err != nil {
 				vt.Fatal("aesgcm params: %v", err)
 			}
@@ -672,6 +678,9 @@ func keysEqual(a, b *keyset.Handle, viaPublic bool) bool {
 			return false
 		}
 		ka := ea.Key()
+		if g, ok := ka.(*aesgcm.Key); ok && g.Parameters().(*aesgcm.Parameters).IVSizeInBytes() != 12 {
+			continue // not representable in the proto format (C12 known finding): equality after a round trip is not expected
+		}
 		if viaPublic {
 			pk, ok := ka.(interface{ PublicKey() (key.Key, error) })
 			if !ok {
